@@ -3,6 +3,7 @@
 //! exchange; histories over the id alphabet {1,2,3}.
 
 use std::collections::BTreeMap;
+use std::rc::Rc;
 use std::time::Instant;
 
 use proptest::prelude::*;
@@ -505,6 +506,102 @@ pub fn rel_window_cases() -> Vec<RelWindow> {
     out
 }
 
+/// Deterministic scenarios: the application closes the connection, `handle_qos_after_disconnect` lets publishes already
+/// received still be handled; an id in use by one of them is still in use for the next.
+#[derive(Clone, Copy, Debug, PartialEq, Eq, Hash, Serialize, Deserialize)]
+pub struct AfterClose {
+    pub role: Role,
+    pub qos: u8,
+    pub second_qos: u8,
+    /// the first handler with the id is still running when the second PUBLISH is dispatched
+    pub deferred: bool,
+}
+
+pub async fn run_after_close(x: AfterClose) -> Result<CaseInfo, Failure> {
+    let role = x.role;
+    let mut cfg = Cfg::default();
+    cfg.v3.handle_qos_after_disconnect = Some(2);
+    cfg.v5.handle_qos_after_disconnect = Some(2);
+    let eut = Eut::start(role, &cfg).await;
+    eut.handshake(&cfg).await;
+    let app = eut.app().clone();
+    // the handler of the first publish closes the connection as soon as it is entered: the publishes pipelined behind
+    // it are dispatched on a connection that is already closed
+    let closer: Rc<dyn Fn()> = match &eut {
+        Eut::V3(e) => {
+            let s = e.sink();
+            Rc::new(move || {
+                if let Some(s) = &s {
+                    s.force_close();
+                }
+            })
+        }
+        Eut::V5(e) => {
+            let s = e.sink();
+            Rc::new(move || {
+                if let Some(s) = &s {
+                    s.force_close();
+                }
+            })
+        }
+    };
+    *app.on_pub_enter.borrow_mut() = Some(Rc::new(move |seq: u32| {
+        if seq == 0 {
+            closer();
+        }
+    }));
+    if x.deferred {
+        app.hold(G_PUB, 1);
+    }
+    let mut bytes = eut.encode(&P5::Publish(Box::new(s5::Publish5 { qos: 0, topic: "t/a".into(), ..Default::default() })), &[]);
+    bytes.extend(eut.encode(&P5::Publish(Box::new(s5::Publish5 { qos: x.qos, pid: Some(7), topic: "t/b".into(), ..Default::default() })), &[]));
+    bytes.extend(eut.encode(&P5::Publish(Box::new(s5::Publish5 { qos: x.second_qos, pid: Some(7), topic: "t/c".into(), ..Default::default() })), &[]));
+    eut.peer().send(&bytes);
+    eut.settle().await;
+    let topics = |app: &App| -> Vec<String> { app.pub_enters().iter().map(|(_, s)| s.topic.clone()).collect() };
+    let first_handled = topics(&app).iter().any(|t| t == "t/b");
+    // QoS 1 with an immediate handler: the exchange is over as far as the endpoint is concerned (its PUBACK is produced),
+    // the second PUBLISH is a fresh use of the id; every other combination leaves the id in use
+    let in_use = first_handled && (x.deferred || x.qos == 2);
+    let check = |app: &App, when: &str| -> Result<(), Failure> {
+        if in_use && topics(app).iter().any(|t| t == "t/c") {
+            return Err(Failure::new(
+                "in-use-id-delivered",
+                format!("C11/{}/in-use-id-delivered/after-close", role.name()),
+                format!("{when}: the application closed the connection, publishes are still handled (handle_qos_after_disconnect); id 7 of a QoS {} PUBLISH ({}) was re-used by a QoS {} PUBLISH that reached the handler; handlers saw {:?}", x.qos, if x.deferred { "handler running" } else { "awaiting PUBREL" }, x.second_qos, topics(app)),
+            ));
+        }
+        Ok(())
+    };
+    check(&app, "before the handler of the first use finished")?;
+    app.open_all();
+    eut.settle().await;
+    if x.qos == 2 || x.deferred {
+        // (QoS 2: no PUBREL was ever sent, the id stays in use; QoS 1 deferred: the second PUBLISH was dispatched while
+        // the first handler ran, it must not show up later either)
+        check(&app, "after all handlers finished")?;
+    }
+    eut.finish().await;
+    Ok(if in_use { CaseInfo::nontrivial(&x).label("reuse-after-application-close") } else { CaseInfo::trivial().label("after-close-first-use-not-handled") })
+}
+
+pub fn after_close_cases() -> Vec<AfterClose> {
+    let mut out = Vec::new();
+    for role in [Role::V3Server, Role::V5Server] {
+        for qos in [1u8, 2] {
+            for second_qos in [1u8, 2] {
+                for deferred in [false, true] {
+                    if qos == 1 && !deferred {
+                        continue;
+                    }
+                    out.push(AfterClose { role, qos, second_qos, deferred });
+                }
+            }
+        }
+    }
+    out
+}
+
 fn op_strategy() -> BoxedStrategy<Op> {
     prop_oneof![
         4 => (1u8..3, 1u16..4, any::<bool>(), prop_oneof![4 => Just(0u8), 1 => Just(0x87u8), 1 => Just(0x10u8)]).prop_map(|(qos, id, deferred, neg)| Op::Pub { qos, id, deferred, neg }),
@@ -584,6 +681,11 @@ pub fn run(ctx: &Ctx, started: Instant) -> i32 {
         run_list_bed("C11", rel_window_cases(), &mut st, |x| json!({"rel_window": x}), run_rel_window);
         stats.merge(st);
     }
+    {
+        let mut st = Stats::default();
+        run_list_bed("C11", after_close_cases(), &mut st, |x| json!({"after_close": x}), run_after_close);
+        stats.merge(st);
+    }
     let per_shard = ctx.tier.pick(8_000u32, 100_000);
     let rnd = par_shards(WORKERS, |shard| {
         let mut st = Stats::default();
@@ -594,7 +696,7 @@ pub fn run(ctx: &Ctx, started: Instant) -> i32 {
     let report = Report {
         level: "exploration",
         rule: "exhaustive: every history of 3 (quick) / 4 (thorough) packet ops over {PUBLISH QoS1/QoS2 (immediate or gated), SUBSCRIBE (immediate or gated), UNSUBSCRIBE, PUBREL} x ids {1,2} x three gate-opening \
-               placements, v3/v5 servers (and clients for the PUBLISH/PUBREL subset); random: 2..10 ops over ids {1,2,3} with v5 negative acks (0x87) and the non-error PUBREC/PUBACK code 0x10 and arbitrary gate openings; deterministic: reuse of a QoS 2 id by PUBLISH QoS 1/2 or SUBSCRIBE before the PUBREL and while the PUBREL's protocol handler is held (PUBCOMP not produced), PUBREC reason 0 / 0x10, v3 and v5 servers. Model: reserved-id map with per-exchange \
+               placements, v3/v5 servers (and clients for the PUBLISH/PUBREL subset); random: 2..10 ops over ids {1,2,3} with v5 negative acks (0x87) and the non-error PUBREC/PUBACK code 0x10 and arbitrary gate openings; deterministic: reuse of a QoS 2 id by PUBLISH QoS 1/2 or SUBSCRIBE before the PUBREL and while the PUBREL's protocol handler is held (PUBCOMP not produced), PUBREC reason 0 / 0x10, v3 and v5 servers; reuse of an id on a connection the application has closed while publishes are still handled (handle_qos_after_disconnect). Model: reserved-id map with per-exchange \
                release point observed on the wire; a reuse attempt is only judged when the id is clearly in use (handler gated / awaiting PUBREL) or clearly released (acknowledgement on the wire). \
                Non-trivial = history contains a reuse attempt; distinct = (role, (kind of reuse, kind of first use, released?) list)"
             .into(),
@@ -612,6 +714,10 @@ pub fn replay(path: &str) -> i32 {
     let case = super::load_case(path);
     if !case["rel_window"].is_null() {
         let res = serde_json::from_value::<RelWindow>(case["rel_window"].clone()).map_err(|e| e.to_string()).map(|x| run_isolated("C11", x, &run_rel_window));
+        return super::report_replay("C11", path, res);
+    }
+    if !case["after_close"].is_null() {
+        let res = serde_json::from_value::<AfterClose>(case["after_close"].clone()).map_err(|e| e.to_string()).map(|x| run_isolated("C11", x, &run_after_close));
         return super::report_replay("C11", path, res);
     }
     let res = serde_json::from_value::<Case>(case["case"].clone()).map_err(|e| e.to_string()).map(|c| check_case(&c));
